@@ -11,7 +11,15 @@
                      numbered (seq box, applySeq), with or without updatePtsChanged; recoveries,
                      timer firings, startup; channels tracked from the start or by their first
                      pushed update), each carrying the server's visible horizon
-     accounted s e tr := Deliver s (eid e) is in tr, or TooLong s is in tr
+     accounted s e tr := Deliver s (eid e) is in tr, or some TooLong s from to with
+                     from < pos e <= to is in tr (the callback reports the range it skips)
+     server_ok c     the contract assumed of the server's policy, which is otherwise ARBITRARY
+                     (any function of log, horizon and request choosing intermediate states,
+                     slicing and too-long answers): a final answer brings the client to the
+                     horizon, cuts lie between request and horizon, a non-final answer makes
+                     progress, too-long is not answered at the horizon nor after having been
+                     refused for a lower request.  Every answer carries exactly the log entries
+                     in (request, cut].  std_server_ok: the harness's fake server satisfies it.
      (the difference recursion of the model carries a fuel of |log|+2 fetches; it is proved
       sufficient: never_out_of_fuel, so the statements below are unconditional)
 
@@ -24,20 +32,20 @@ Import ListNotations.
 Open Scope Z_scope.
 
 Theorem C02_no_loss_common : forall c log ops vis,
-  wf_log log ->
+  wf_log log -> server_ok c ->
   forall s e, (s = 0 \/ s = 1) -> In e log -> eseq e = s -> base c s < epos e <= vis s ->
               accounted s e (mtr (mrun c log (ops ++ [MTooLong vis]))).
 Proof. exact no_loss_common_total. Qed.
 Print Assumptions C02_no_loss_common.
 
 Theorem C02_no_loss_channel : forall c log ops vis s,
-  wf_log log -> 2 <= s < nseq c -> mtracked (mrun c log ops) s = true ->
+  wf_log log -> server_ok c -> 2 <= s < nseq c -> mtracked (mrun c log ops) s = true ->
   forall e, In e log -> eseq e = s -> base c s < epos e <= vis s ->
             accounted s e (mtr (mrun c log (ops ++ [MChanTooLong vis s]))).
 Proof. exact no_loss_channel_total. Qed.
 
 (* the recursion getDifference -> slice -> getDifference ... always ends within |log|+2 fetches *)
-Theorem C02_recovery_terminates : forall c log ops, moof (mrun c log ops) = false.
+Theorem C02_recovery_terminates : forall c log ops, server_ok c -> moof (mrun c log ops) = false.
 Proof. exact never_out_of_fuel. Qed.
 Print Assumptions C02_recovery_terminates.
 Print Assumptions C02_no_loss_channel.
@@ -46,18 +54,43 @@ Print Assumptions C02_no_loss_channel.
    ends with a completed difference fetch; numbered containers: whenever applySeq applies a
    batch in which ANY container carries it (not only the last one) *)
 Theorem C02_no_loss_pts_changed : forall c log ops vis cid ids,
-  wf_log log ->
+  wf_log log -> server_ok c ->
   forall s e, (s = 0 \/ s = 1) -> In e log -> eseq e = s -> base c s < epos e <= vis s ->
               accounted s e (mtr (mrun c log (ops ++ [MPushC vis cid 0 ids true]))).
 Proof. exact no_loss_pts_changed. Qed.
 Print Assumptions C02_no_loss_pts_changed.
 Theorem C02_no_loss_pts_changed_seq : forall c log ops vis cid sq ids p,
-  wf_log log -> sq <> 0 ->
+  wf_log log -> server_ok c -> sq <> 0 ->
   snd (fst (pushc_apply c log vis (mrun c log ops) cid sq ids p)) = true ->
   forall s e, (s = 0 \/ s = 1) -> In e log -> eseq e = s -> base c s < epos e <= vis s ->
               accounted s e (mtr (mrun c log (ops ++ [MPushC vis cid sq ids p]))).
 Proof. exact no_loss_pts_changed_seq. Qed.
 Print Assumptions C02_no_loss_pts_changed_seq.
+
+(* the other recovery triggers of the statement: gap / idle timeout (same code path), startup *)
+Theorem C02_no_loss_timer_common : forall c log ops vis,
+  wf_log log -> server_ok c ->
+  forall s e, (s = 0 \/ s = 1) -> In e log -> eseq e = s -> base c s < epos e <= vis s ->
+              accounted s e (mtr (mrun c log (ops ++ [MTimerCommon vis]))).
+Proof. exact no_loss_timer_common. Qed.
+Print Assumptions C02_no_loss_timer_common.
+Theorem C02_no_loss_timer_channel : forall c log ops vis s,
+  wf_log log -> server_ok c -> 2 <= s < nseq c -> mtracked (mrun c log ops) s = true ->
+  forall e, In e log -> eseq e = s -> base c s < epos e <= vis s ->
+            accounted s e (mtr (mrun c log (ops ++ [MTimerChan vis s]))).
+Proof. exact no_loss_timer_channel. Qed.
+Print Assumptions C02_no_loss_timer_channel.
+Theorem C02_no_loss_startup_common : forall c log ops vis,
+  wf_log log -> server_ok c ->
+  forall s e, (s = 0 \/ s = 1) -> In e log -> eseq e = s -> base c s < epos e <= vis s ->
+              accounted s e (mtr (mrun c log (ops ++ [MStartup vis]))).
+Proof. exact no_loss_startup_common. Qed.
+Print Assumptions C02_no_loss_startup_common.
+
+(* the fake server of the harness is one instance of the contract *)
+Theorem C02_std_server_ok : forall n b tr sl tl csl ctl, server_ok (std_config n b tr sl tl csl ctl).
+Proof. exact std_server_ok. Qed.
+Print Assumptions C02_std_server_ok.
 
 (* At every moment, recovery or not: whatever a local position has moved past (by pushed
    updates, by gaps filled later, by differences) has been delivered or reported. *)
@@ -73,22 +106,37 @@ Print Assumptions C02_no_loss_position.
    boxes before setState), which is exactly the hypothesis mono_ops of C01_at_most_once that
    the unrepaired code violated (C01_manager_dup_before_repair below). *)
 Theorem C01_manager_at_most_once : forall c log ops,
-  wf_log log -> NoDup (map eid log) -> vis_ok c log (mgr_init c) ops ->
+  wf_log log -> NoDup (map eid log) -> server_ok c -> vis_ok c log (mgr_init c) ops ->
   NoDup (seq_delivers (mtr (mrun c log ops))).
 Proof. exact manager_at_most_once. Qed.
 Print Assumptions C01_manager_at_most_once.
 
+(* Manager-level C01 ordering, at every quiescent point (after any operation list): the
+   delivered set of each sequence is downward closed, i.e. an update has reached the handler
+   only if everything of its sequence below its start has too (or was reported too long).
+   INSIDE one fetched difference the handler receives other_updates before new_messages
+   (C02_witness_repaired: [Deliver 0 2; Deliver 0 1]); the positions in between are "covered
+   by a fetched difference" in the words of the statement - that very difference - and this
+   is accepted, not a finding; the Go oracle (updsim.CheckInOrder) checks exactly this clause
+   on every prefix of the real trace. *)
+Theorem C01_manager_in_order : forall c log ops,
+  wf_log log -> NoDup (map eid log) -> server_ok c -> vis_ok c log (mgr_init c) ops ->
+  forall s e e', 0 <= s -> In e log -> eseq e = s -> In (Deliver s (eid e)) (mtr (mrun c log ops)) ->
+                 In e' log -> eseq e' = s -> base c s < epos e' <= epos e - ecnt e ->
+                 accounted s e' (mtr (mrun c log ops)).
+Proof. exact manager_in_order. Qed.
+Print Assumptions C01_manager_in_order.
+
 (* ---- the findings, as witnesses on the routing BEFORE the repair (Model/UpdMgrOld.v) ---- *)
 Definition E (i k s p n : Z) : entry := {| eid := i; ekind := k; eseq := s; epos := p; ecnt := n |}.
-Definition cfg0 (n : Z) (b : Z -> Z) (sl : Z) : config :=
-  {| nseq := n; base := b; tracked0 := fun _ => true; slice_lim := sl; tl_thr := 0; cslice_lim := 0; ctl_thr := 0 |}.
+Definition cfg0 (n : Z) (b : Z -> Z) (sl : Z) : config := std_config n b (fun _ => true) sl 0 0 0.
 Definition vis_of (l : list Z) : Z -> Z := fun s => nth (Z.to_nat s) l 0.
 
 (* log [Msg@1; Other@2], nothing pushed, one completed recovery: the other update is lost *)
 Definition w_log : list entry := [E 1 0 0 1 1; E 2 1 0 2 1].
 Theorem C02_refuted_before_repair :
   let m := mrun_old (cfg0 2 (fun _ => 0) 0) w_log [MStartup (vis_of [0; 0]); MTooLong (vis_of [2; 0])] in
-  moof m = false /\ deliveredb 0 1 (mtr m) = true /\ deliveredb 0 2 (mtr m) = false /\ toolongb 0 (mtr m) = false.
+  moof m = false /\ deliveredb 0 1 (mtr m) = true /\ deliveredb 0 2 (mtr m) = false /\ toolongb 0 2 (mtr m) = false.
 Proof. vm_compute. repeat split; reflexivity. Qed.
 Print Assumptions C02_refuted_before_repair.
 (* the same history on the repaired routing *)
@@ -101,7 +149,7 @@ Proof. vm_compute. reflexivity. Qed.
 Definition w_clog : list entry := [E 1 4 2 1 1; E 2 4 2 2 1; E 3 5 2 3 1].
 Theorem C02_channel_refuted_before_repair :
   let m := mrun_old (cfg0 3 (fun _ => 0) 0) w_clog [MStartup (vis_of [0; 0; 0]); MChanTooLong (vis_of [0; 0; 3]) 2] in
-  moof m = false /\ deliveredb 2 3 (mtr m) = false /\ toolongb 2 (mtr m) = false /\
+  moof m = false /\ deliveredb 2 3 (mtr m) = false /\ toolongb 2 3 (mtr m) = false /\
   persisted (cfg0 3 (fun _ => 0) 0) 2 (mtr m) = 3.
 Proof. vm_compute. repeat split; reflexivity. Qed.
 Print Assumptions C02_channel_refuted_before_repair.
@@ -126,7 +174,7 @@ Proof. vm_compute. reflexivity. Qed.
    duplicate), loss, a channel that becomes tracked by its first pushed update, sliced
    recoveries; everything is delivered exactly once *)
 Definition nv_log : list entry := [E 1 0 0 1 1; E 2 1 0 3 2; E 3 0 0 4 1; E 4 2 1 1 1; E 5 3 1 2 1; E 6 4 2 1 1; E 7 5 2 2 1].
-Definition nv_cfg : config := {| nseq := 3; base := fun _ => 0; tracked0 := fun s => negb (s =? 2); slice_lim := 1; tl_thr := 0; cslice_lim := 1; ctl_thr := 0 |}.
+Definition nv_cfg : config := std_config 3 (fun _ => 0) (fun s => negb (s =? 2)) 1 0 1 0.
 Definition nv_vis := vis_of [4; 2; 2; 2].
 Definition nv_ops : list mop :=
   [MStartup (vis_of [0; 0; 0; 0]); MPushC nv_vis 1 2 [3; 5; 6] false; MPushC nv_vis 2 1 [1; 1] true; MChanTooLong nv_vis 2].
@@ -138,13 +186,13 @@ Proof.
     repeat (destruct H1 as [<-|H1]; [repeat (destruct H2 as [<-|H2]; [simpl; intros; try lia; auto|]); try destruct H2|]); try destruct H1.
 Qed.
 Example C02_nonvacuous :
-  wf_log nv_log /\ NoDup (map eid nv_log) /\ vis_ok nv_cfg nv_log (mgr_init nv_cfg) nv_ops /\
+  wf_log nv_log /\ NoDup (map eid nv_log) /\ server_ok nv_cfg /\ vis_ok nv_cfg nv_log (mgr_init nv_cfg) nv_ops /\
   moof (mrun nv_cfg nv_log nv_ops) = false /\
   seq_delivers (mtr (mrun nv_cfg nv_log nv_ops)) = [(0, 1); (2, 6); (2, 7); (0, 2); (0, 3); (1, 4); (1, 5)].
 Proof.
   split; [exact nv_wf|]. split.
   - simpl. repeat constructor; simpl; intuition lia.
-  - split; [|split; vm_compute; reflexivity].
+  - split; [apply std_server_ok|]. split; [|split; vm_compute; reflexivity].
     assert (H3 : forall (P : Z -> Prop), P 0 -> P 1 -> P 2 -> forall s, 0 <= s < Z.max 2 (nseq nv_cfg) -> P s).
     { intros P H0 H1 H2 s Hs. simpl in Hs.
       assert (s = 0 \/ s = 1 \/ s = 2) as [->|[->| ->]] by lia; auto. }
